@@ -112,6 +112,26 @@ REGISTRY = {
         "trusted_base": COMMON_TRUST,
         "assumptions": [EXTERNAL, "reverse ntHash seed of a base = forward seed of its complement (compared on every generated window)"],
     },
+    "C02": {
+        "level": "proof", "modules": ["SkaModel.Props.C02"], "gen": ["C02"], "cli": [cli.c02_cli],
+        "rule": "record sets of C01 x transformations (record permutation, random case mask, per-record reverse complement when strands are merged, all together); in-process metamorphic comparison + CLI runs on re-wrapped/gzip-compressed/permuted files; non-trivial = distinct case lines yielding at least one k-mer",
+        "trusted_base": COMMON_TRUST, "assumptions": [EXTERNAL, "gzip decompression and FASTA line joining (needletail) are exercised through the CLI only"],
+    },
+    "C04": {
+        "level": "proof", "modules": ["SkaModel.Props.C04"], "gen": ["C04"],
+        "rule": "references of 1-5 contigs (lengths 1, h, k-1, k, k+1, .., N runs, planted repeats on both strands, lower/mixed case) x samples derived by SNPs, indels, block deletions of every length 0..2k+2, rearranged/reverse-complemented/missing contigs, or tables with ambiguity codes; all four mask combinations; plus AlnWriter driven call by call with every gap length; non-trivial = distinct case lines with at least one mapped k-mer",
+        "trusted_base": COMMON_TRUST, "assumptions": [EXTERNAL],
+    },
+    "C05": {
+        "level": "proof", "modules": ["SkaModel.Props.C05"], "gen": ["C05"],
+        "rule": "inputs of C04; VCF text parsed (CHROM, POS, REF, ALT, GT) and genotypes decoded through REF/ALT, compared with the alignment-derived specification; non-trivial = distinct case lines with at least one record",
+        "trusted_base": COMMON_TRUST, "assumptions": [EXTERNAL, "noodles-vcf text rendering is trusted"],
+    },
+    "C11": {
+        "level": "proof", "modules": ["SkaModel.Props.C11"], "gen": [], "cli": [cli.c11_cli],
+        "rule": "CLI matrix subcommand x input kind x threads x repetitions x sample counts on both sides of the 10-samples-per-thread rule (each process draws fresh hash seeds); non-trivial = distinct (sample count) families compared",
+        "trusted_base": COMMON_TRUST, "assumptions": [EXTERNAL, "actual rayon scheduling and DashMap interleavings are sampled by the matrix, not proved"],
+    },
     "C06": {
         "level": "proof", "modules": ["SkaModel.Props.C06"], "gen": ["C06"],
         "rule": "random tables (1-12 samples, 0-13 rows, bases/gaps/ambiguity codes at several densities) x align observers over all four site filters, all flag combinations, thresholds 0..n, run through generic_modes::align with save/reload; non-trivial = distinct case lines with at least one emitted column",
@@ -144,7 +164,7 @@ REGISTRY = {
     },
     "C01": {
         "level": "proof",
-        "modules": ["SkaModel.Props.C01", "SkaModel.Props.C01Iter"],
+        "modules": ["SkaModel.Props.C01", "SkaModel.Props.C01Iter", "SkaModel.Props.C01Dict"],
         "gen": ["C01"],
         "cli": [cli.c01_cli],
         "rule": "record sets aimed at window boundaries (lengths k-1..k+2, N at 0..k+2 from either end, repeats, self-rc arms, mixed case), all 30 k, both strands, both widths; exhaustive {A,C,G,T,N}^<=L at k=5/7; non-trivial = distinct case lines yielding at least one k-mer",
